@@ -2,6 +2,7 @@ from torchvision.datasets import ImageFolder
 from torchvision.datasets.folder import default_loader
 
 from kappadata.datasets.kd_dataset import KDDataset
+from kappadata.transforms.base.kd_transform import KDTransform
 
 
 class KDImageFolder(KDDataset):
@@ -21,6 +22,11 @@ class KDImageFolder(KDDataset):
             is_valid_file=is_valid_file,
         )
         self.transform = transform
+
+    def worker_init_fn(self, rank, **kwargs):
+        super().worker_init_fn(rank, **kwargs)
+        if isinstance(self.transform, KDTransform):
+            self.transform.worker_init_fn(rank, **kwargs)
 
     # noinspection PyUnusedLocal
     def getitem_x(self, idx, ctx=None):
